@@ -13,7 +13,8 @@ EXPLANATION = ("Task group errors: the done-callback routes the child's exceptio
                "cancellation), only non-cancellations are collected, the first failure cancels the group, the block raises the whole "
                "list as one group exactly when it is non-empty, an outer exception passes through unchanged, the scope's exit filter "
                "splits out AnyIO cancellations only."
-               " The classifier that tells AnyIO's cancellations from native ones follows __context__ from one CancelledError to the next and cannot fail; the restart walk reaches a cancelled scope before it tests its shield; a scope that swallows its own cancellation out of a group reports cancelled_caught also when it re-raises the rest.")
+               " The classifier that tells AnyIO's cancellations from native ones follows __context__ from one CancelledError to the next and cannot fail; the restart walk reaches a cancelled scope before it tests its shield; a scope that swallows its own cancellation out of a group reports cancelled_caught also when it re-raises the rest."
+               " The delivery loop's retry flag accumulates over members and child scopes.")
 NOT_DECIDED = "Ordering of leaves, tracebacks / __context__ chains, schedules."
 
 
